@@ -359,6 +359,20 @@ func checkVerdict(c verdictCase) (string, string) {
 	return "", ""
 }
 
+// asImport turns a single-file verdict case into "the same text as an imported file": main.tsh only imports it.
+// Typing and scoping rules do not depend on whether a file is the entry file, so the expected verdict is unchanged
+// (names of an imported file are stored under a prefix: the lookups differ, the rules do not).
+func asImport(c verdictCase) (verdictCase, bool) {
+	if len(c.Files) != 1 || strings.Contains(c.Files[c.Main], "import ") {
+		return c, false
+	}
+	n := c
+	n.Files = map[string]string{"main.tsh": "import lb \"lib.tsh\"\n", "lib.tsh": c.Files[c.Main]}
+	n.Main = "main.tsh"
+	n.Note = c.Note + " (as imported file)"
+	return n, true
+}
+
 func init() {
 	replayFuncs["verdict"] = func(raw json.RawMessage) (bool, string) {
 		var c verdictCase
@@ -370,7 +384,7 @@ func init() {
 
 func TestC06(t *testing.T) {
 	r, e := start(t, "C06",
-		"(1) exhaustive table: every typed position of the grammar (operands of each operator, definition/assignment/compound slots, arguments and arity, return slots at any nesting depth, conditions, case expressions and tags, range operands, slice elements, indices, bounds, builtin arguments) x every offered type {int,bool,string/error/nil,[]int,[]bool,[]string,no-value,multi-value} in up to 4 expression shapes x 6 enclosing contexts (top level, function, if, for, switch case, two blocks deep inside a function); (2) random well-typed programs with one expression replaced by one of another type. Oracle: own typing rules (Go's for the shared syntax, README signatures for builtins): accept iff well-typed, same verdict for Bash and Batch, no script on error. Non-trivial = cells whose offered expression is itself well-typed but of the wrong type for the position, and accept cells with a non-literal shape; distinct by program text.",
+		"(1) exhaustive table: every typed position of the grammar (operands of each operator, definition/assignment/compound slots, arguments and arity, return slots at any nesting depth, conditions, case expressions and tags, range operands, slice elements, indices, bounds, builtin arguments) x every offered type {int,bool,string/error/nil,[]int,[]bool,[]string,no-value,multi-value} in up to 4 expression shapes x 6 enclosing contexts (top level, function, if, for, switch case, two blocks deep inside a function); (2) random well-typed programs with one expression replaced by one of another type; the corrupted program and one expression shape of every table cell are also checked as the text of an IMPORTED file (same verdict expected). Oracle: own typing rules (Go's for the shared syntax, README signatures for builtins): accept iff well-typed, same verdict for Bash and Batch, no script on error. Non-trivial = cells whose offered expression is itself well-typed but of the wrong type for the position, and accept cells with a non-literal shape; distinct by program text.",
 		[]string{"not asserted (unspecified by the property / README): ordering comparison of strings, panic argument type, slice equality, x := nil, nil returned for a slice result, slicing a slice, multi-valued call as sole argument of another call", "error is string and nil is the empty string, as the README states"})
 	defer r.Flush()
 
@@ -415,6 +429,13 @@ func TestC06(t *testing.T) {
 						ctxKind = "nested"
 					}
 					r.Violate(rep.Sig{"position": p.id, "offered": otyNames[o.ty], "shape": o.shape, "context": ctxKind, "kind": kind}, c.Note+": "+msg+"\n"+strings.TrimPrefix(src, c06Prelude), c)
+				} else if ci, ok := asImport(c); ok && o.shape == "variable" {
+					// the same cell with the program text as an imported file (one expression shape per cell)
+					r.Eval()
+					r.Class("table:as-imported-file")
+					if kind, msg := checkVerdict(ci); kind != "" {
+						r.Violate(rep.Sig{"position": p.id, "offered": otyNames[o.ty], "shape": o.shape, "kind": kind, "as-import": "yes"}, ci.Note+": "+msg+"\n"+strings.TrimPrefix(src, c06Prelude), ci)
+					}
 				}
 			}
 		}
@@ -487,6 +508,11 @@ func TestC06(t *testing.T) {
 			Note: "corrupted " + ts.ExprString(orig) + " (" + want.String() + ") into " + ts.ExprString(repl) + " (" + repl.T().String() + ")"}
 		if kind, msg := checkVerdict(c); kind != "" {
 			r.FailCase(t, rep.Sig{"random": "corrupted", "kind": kind, "want": want.String(), "got": repl.T().String(), "site": siteName}, c.Note+": "+msg+"\n"+src, c)
+		}
+		if ci, ok := asImport(c); ok {
+			if kind, msg := checkVerdict(ci); kind != "" {
+				r.FailCase(t, rep.Sig{"random": "corrupted", "kind": kind, "want": want.String(), "got": repl.T().String(), "site": siteName, "as-import": "yes"}, ci.Note+": "+msg+"\n"+src, ci)
+			}
 		}
 	})
 }
